@@ -12,7 +12,9 @@ PROPERTY = "C14"
 RULE = ("E1 x E3: portfolios (contracts with spread / takes / windows / wacc, transports, storages with start = end and start != end level, "
         "inflow, multi-commodity, order book, must-run demand) with <= K deviations x interval sizes {12h, d, 5h, 2d} x horizons (aligned, "
         "starting 06:00, partial last step, autumn clock change, 3 days); distinct = canonical scenario; non-trivial = all interval "
-        "problems optimal with non-zero dispatch and at least two intervals")
+        "problems optimal with non-zero dispatch and at least two intervals; family mip: a plant with on/off variables (nothing coupling steps) "
+        "or a storage with the no-simultaneous option, active in part of the horizon (intervals that are MIPs, LPs or contain no such unit), "
+        "<= K+1 deviations, split against the unsplit problem of EAO itself")
 ASSUMPTIONS = ["reference value = sum over intervals of the R2 optimum of the scenario cut to the interval, with discounting by the ORIGINAL elapsed time",
                "dispatch: balance per node and step on the original grid + plug-in into the per-interval reference models (per-interval restart)",
                "no coupling = no storage, take, order book; then split must equal the unsplit optimum; storages with start = end level only: split <= unsplit"]
@@ -33,7 +35,8 @@ def build_cases(tier):
     fine = dict(FEATS, grids=["5xh", "12x2h", "7xh_autumn"], modes=["split:2h", "split:4h", "split:3h", "split:6h"])
     cases, stats = merge_cases(family("split", lambda ch: S.gen_portfolio(ch, FEATS), K),
                                family("fine", lambda ch: S.gen_portfolio(ch, fine), K if tier == "thorough" else 1),
-                               family("uncoupled", gen_uncoupled, K))
+                               family("uncoupled", gen_uncoupled, K),
+                               family("mip", gen_mip, K + 1))
     stats["bound"] = dict(K=K, sizes=4, horizons=5)
     return cases, stats
 
@@ -55,6 +58,85 @@ def gen_uncoupled(ch):
     return S.finish(gj, assets, prices, mode=mode)
 
 
+def gen_mip(ch):
+    """a market and a unit with on/off variables but nothing that couples steps (no runtime, ramp or start costs), active in part
+    of the horizon: some intervals are MIPs, others LPs, others contain no plant at all"""
+    gname = ch.pick("grid", ["8x6h", "12x2h", "4x6h_off"])
+    gj = dict(S.GRIDS[gname])
+    g = Grid.from_json(gj)
+    prices = S.make_prices(g.T, ch.free("prices", S.PRICE_PAIRS[:2]))
+    prices["fuelc"] = [3.0] * g.T
+    assets = [dict(type="SimpleContract", name="mkt", nodes=["n1"], price="p", min_cap=S.r(-15.0, g), max_cap=S.r(15.0, g))]
+    kind = ch.pick("unit", ["plant", "storage_nosimult"])
+    if kind == "plant":
+        a = dict(type="Plant", name="pl", nodes=["n1"], price="fuelc", min_cap=S.r(ch.pick("pl.min_cap", [1.0, 3.0]), g), max_cap=S.r(10.0, g))
+        rc = ch.pick("pl.running_costs", [0.0, 0.5])
+        if rc:
+            a["running_costs"] = S.r(rc, g)
+    else:
+        a = dict(type="Storage", name="pl", nodes=["n1"], size=8.0, cap_in=S.r(1.0, g), cap_out=S.r(2.0, g), start_level=0.0, end_level=0.0,
+                 no_simult_in_out=True, eff_in=0.9)
+    w = ch.pick("pl.window", S.window_menu(g.T))
+    s_, e_ = S.resolve_window(g, w)
+    if s_:
+        a["start"] = s_
+    if e_:
+        a["end"] = e_
+    if ch.pick("pl.pos", ["last", "first"]) == "first":
+        assets.insert(0, a)
+    else:
+        assets.append(a)
+    mode = ch.pick("mode", ["split:12h", "split:d", "split:5h", "split:2d"])
+    return S.finish(gj, assets, prices, mode=mode, meta=dict(family="mip", unit=kind))
+
+
+def run_mip(case):
+    """EAO against itself: the split result is complete (value, dispatch on the original grid, balance) and - for the plant, which
+    couples nothing - equals the unsplit optimum; for the storage (start = end level) it never exceeds it"""
+    scn = case["scenario"]
+    tags = S.feature_tags(scn) + ["family:mip", "size:" + scn["mode"].split(":")[1]]
+    ptags = [t for t in tags if t.startswith("param:")][:2] + ["mip", "grid:" + scn["grid"]["freq"]]
+    res = dict(status="ok", violations=[], counters={})
+    V = res["violations"]
+    g = Grid.from_json(scn["grid"])
+    mono = ImplRun(dict(scn, mode="mono"), solver="SCIPY")
+    run = ImplRun(scn, solver="SCIPY")
+    res["fingerprint"] = "%s|%s|%s" % (run.status, None if run.value is None else round(run.value, 6), mono.status)
+    res["outcome"] = "mip:%s/%s" % (run.status, mono.status)
+    if mono.status != "optimal":
+        res.update(status="skip", validated=False)
+        return res
+    if run.status == "exception":
+        V.append(viol("c14.raises", "split set-up / optimisation raises %s at %s (stage %s); the unsplit problem is solved" % (run.error, run.site, run.stage),
+                      tags + ["site:%s" % run.site], ptags + ["site:%s" % run.site]))
+        return res
+    if run.status != "optimal":
+        if scn["meta"]["unit"] == "plant":
+            V.append(viol("c14.status", "split optimisation reports %s, the unsplit problem is feasible and nothing couples the steps" % run.status, tags, ptags))
+        else:
+            res.update(status="skip", validated=False)
+        return res
+    tab, nodes = run.table()
+    T = g.T
+    if any(len(v) != T for v in tab.values()):
+        V.append(viol("c14.steps", "dispatch table has %s rows, the original grid has %d steps" % (sorted(set(len(v) for v in tab.values())), T), tags, ptags))
+        return res
+    V += [dict(v, oracle="c14.balance") for v in balance_violations(tab, nodes, T, tags)]
+    if scn["meta"]["unit"] == "plant":
+        if not close(run.value, mono.value):
+            V.append(viol("c14.uncoupled", "nothing couples the intervals: split %.8f, unsplit %.8f" % (run.value, mono.value), tags, ptags))
+    elif run.value > mono.value + 1e-6 * (1 + abs(mono.value)):
+        V.append(viol("c14.exceeds", "coupling only through a storage with start = end level: split %.8f exceeds unsplit %.8f" % (run.value, mono.value), tags, ptags))
+    # the value is the cash flow of the reported dispatch
+    dcf = run.out.get("DCF")
+    if dcf is not None:
+        tot = float(np.nansum(np.asarray(dcf.values, float)))
+        if not close(tot, run.value, abs_=1e-6):
+            V.append(viol("c14.value", "split value %.8f, reported cash flows sum to %.8f" % (run.value, tot), tags, ptags))
+    res["nontrivial"] = bool(sum(float(np.abs(v).sum()) for v in tab.values()) > 1e-6)
+    return res
+
+
 def coupling(scn):
     kinds = set()
     for a in scn["assets"]:
@@ -69,6 +151,8 @@ def coupling(scn):
 
 def run_case(case):
     scn = case["scenario"]
+    if (scn.get("meta") or {}).get("family") == "mip":
+        return run_mip(case)
     tags = S.feature_tags(scn)
     size = scn["mode"].split(":")[1]
     tags += ["size:" + size]
